@@ -6,7 +6,7 @@ from typing import Dict, List, Optional, Set, Tuple
 
 from .core import AnalysisError, Report
 from .emit import Folder
-from .prog import (Program, dotted, enclosing, func_params, guards_of, inline_locals, local_assignments, parent,
+from .prog import (Program, bind_call, dotted, enclosing, func_params, guards_of, inline_locals, local_assignments, parent,
                    stmt_of, unparse, walk_no_nested)
 from .rules_pybind import find_tpl
 
@@ -15,49 +15,99 @@ OPTIONAL_CALLS = {"find"}          # Element.find -> Optional[Element]
 OPTIONAL_ATTRS = {"text", "tail"}  # Element.text -> Optional[str]
 
 
-def rule_confinement(ctx, rep: Report, rid="Q1"):
+def docstring_source(ctx):
+    """Where the docstring slot of _wrap_method gets its value: (function holding the expression, test under which the
+    slot is non-empty ('' otherwise) or None, the non-empty expression, {helper parameter: caller's argument text}).
+    Two shapes: the conditional expression written in the slot, or a local bound to `self.<helper>(...)` whose helper
+    returns '' first thing when no XML source is configured and the literal otherwise."""
     prog = ctx.prog
     ci = prog.cls("PybindWrapper")
-    reads = []
-    for mname, fn in ci.methods.items():
-        for x in walk_no_nested(fn):
-            if isinstance(x, ast.Attribute) and x.attr in ("xml_source", "xml_parser") and isinstance(x.value, ast.Name) \
-                    and x.value.id == "self" and isinstance(x.ctx, ast.Load):
-                reads.append((mname, x))
-    sites = sorted({m for m, _ in reads})
-    rep.add(rid, "xml_source / xml_parser are read by one emitter only", sites == ["_wrap_method"],
-            f"read in {sites}: output produced without XML must be the output with XML minus the docstring literals, so "
-            f"nothing but the docstring slot may depend on them", f"{ci.mod.rel}:{reads[0][1].lineno if reads else 0}")
     fn = prog.method("PybindWrapper", "_wrap_method")
     tpl = find_tpl(ctx, fn, {"docstring", "py_args_names"})
     if tpl is None:
         raise AnalysisError("_wrap_method: template with a {docstring} slot not found")
     e = tpl.slot("docstring").expr
-    ok = isinstance(e, ast.IfExp) and unparse(e.test).replace(" ", "") in ("self.xml_source!=''", 'self.xml_source!=""') \
-        and isinstance(e.orelse, ast.Constant) and e.orelse.value == ""
-    rep.add(rid, "docstring slot is empty exactly when no XML source is configured", ok,
+    if isinstance(e, ast.IfExp):
+        empty_ok = unparse(e.test).replace(" ", "") in ("self.xml_source!=''", 'self.xml_source!=""') \
+            and isinstance(e.orelse, ast.Constant) and e.orelse.value == ""
+        return fn, tpl, e, empty_ok, e.body, {}, None
+    src = e
+    if isinstance(e, ast.Name):
+        vs = [st.value for st in walk_no_nested(fn) if isinstance(st, ast.Assign) and len(st.targets) == 1
+              and isinstance(st.targets[0], ast.Name) and st.targets[0].id == e.id]
+        src = vs[0] if len(vs) == 1 else e
+    if isinstance(src, ast.Call) and isinstance(src.func, ast.Attribute) and unparse(src.func.value) == "self":
+        h = prog.find_method(ci, src.func.attr)
+        if h is not None:
+            hf = h[1]
+            b = {k: unparse(v) for k, v in bind_call(hf, src, drop_self=True).items()}
+            first = hf.body[1] if hf.body and isinstance(hf.body[0], ast.Expr) and isinstance(hf.body[0].value, ast.Constant) and len(hf.body) > 1 else (hf.body[0] if hf.body else None)
+            empty_ok = isinstance(first, ast.If) and unparse(first.test).replace(" ", "") in ("self.xml_source==''", 'self.xml_source==""',
+                                                                                             "notself.xml_source") \
+                and len(first.body) == 1 and isinstance(first.body[0], ast.Return) and isinstance(first.body[0].value, ast.Constant) \
+                and first.body[0].value.value == "" and not first.orelse
+            rets = [r for r in walk_no_nested(hf) if isinstance(r, ast.Return) and r.value is not None and r not in (first.body if isinstance(first, ast.If) else [])]
+            if len(rets) == 1:
+                return hf, tpl, e, empty_ok, _straightline(hf, rets[0].value), b, src
+    return fn, tpl, e, False, e, {}, None
+
+
+def rule_confinement(ctx, rep: Report, rid="Q1"):
+    prog = ctx.prog
+    ci = prog.cls("PybindWrapper")
+    fn = prog.method("PybindWrapper", "_wrap_method")
+    holder, tpl, e, empty_ok, body, pmap, hcall = docstring_source(ctx)
+    reads = []
+    for mname, f_ in ci.methods.items():
+        for x in walk_no_nested(f_):
+            if isinstance(x, ast.Attribute) and x.attr in ("xml_source", "xml_parser") and isinstance(x.value, ast.Name) \
+                    and x.value.id == "self" and isinstance(x.ctx, ast.Load):
+                reads.append((mname, x, f_))
+    allowed = {"_wrap_method"}
+    if holder is not fn:
+        # the helper is private to the docstring slot: called from _wrap_method only, its result used for that slot only
+        hname = holder.name
+        callers = sorted({m for m, f_ in ci.methods.items() for c in ast.walk(f_) if isinstance(c, ast.Call) and isinstance(c.func, ast.Attribute)
+                          and c.func.attr == hname and unparse(c.func.value) == "self"})
+        uses = [u for u in walk_no_nested(fn) if isinstance(e, ast.Name) and isinstance(u, ast.Name) and u.id == e.id and isinstance(u.ctx, ast.Load)]
+        only_slot = isinstance(e, ast.Name) and all(isinstance(parent(u), ast.keyword) and parent(u).arg == "docstring" for u in uses)
+        if callers == ["_wrap_method"] and (only_slot or not isinstance(e, ast.Name)):
+            allowed.add(hname)
+    sites = sorted({m for m, _, _ in reads})
+    rep.add(rid, "xml_source / xml_parser are read by one emitter only", set(sites) <= allowed and "_wrap_method" in allowed and bool(sites),
+            f"read in {sites}: output produced without XML must be the output with XML minus the docstring literals, so "
+            f"nothing but the docstring slot may depend on them", f"{ci.mod.rel}:{reads[0][1].lineno if reads else 0}")
+    rep.add(rid, "docstring slot is empty exactly when no XML source is configured", empty_ok,
             f"docstring <- {unparse(e)[:120]}", f"{ci.mod.rel}:{fn.lineno}")
-    # every read lies inside that slot expression
-    inside = all(any(x is y for y in ast.walk(e)) for m, x in reads if m == "_wrap_method")
+    # every read lies inside that slot expression (or inside the helper that only feeds the slot)
+    inside = all(any(x is y for y in ast.walk(e)) or m in allowed - {"_wrap_method"} for m, x, _ in reads if m in allowed)
     rep.add(rid, "every read of xml_source / xml_parser lies inside the docstring slot's expression", inside,
             "another expression of _wrap_method depends on the XML configuration", f"{ci.mod.rel}:{fn.lineno}")
     # the slot directly follows the py::arg list and precedes the closing parenthesis
     lit = tpl.literal("@")
-    keys = [s.key for s in tpl.slots()]
+    keys = [s_.key for s_ in tpl.slots()]
     i = keys.index("docstring")
     rep.add(rid, "docstring literal is the last argument of the .def(...) call", keys[i - 1] == "py_args_names" and lit.rstrip("@").endswith(")"),
             f"slots {keys}, skeleton ...{lit[-20:]!r}", f"{ci.mod.rel}:{fn.lineno}")
-    body = e.body if isinstance(e, ast.IfExp) else e
-    _literal_encoding(ctx, rep, rid, ci, fn, body)
+    _literal_encoding(ctx, rep, rid, ci, holder, body)
     call = next((c for c in ast.walk(body) if isinstance(c, ast.Call) and isinstance(c.func, ast.Attribute)
                  and c.func.attr == "extract_docstring"), None)
-    args = [unparse(a) for a in call.args] if call else []
+    args = [pmap.get(unparse(a), unparse(a)) for a in call.args] if call else []
     mp = func_params(fn)[1]
     cls_param = func_params(fn)[2]
-    callee = [unparse(v) for v in _vals(fn, call.args[2])] if call and len(call.args) > 2 else []
+    a2 = call.args[2] if call and len(call.args) > 2 else None
+    callee = []
+    if a2 is not None:
+        if unparse(a2) in pmap:
+            a2 = ast.parse(pmap[unparse(a2)], mode="eval").body
+        callee = [unparse(v) for v in _vals(fn, a2)]
+    names_arg = args[3] if len(args) > 3 else ""
+    if names_arg and names_arg != f"{mp}.args.names()":
+        nv = [unparse(v) for v in _vals(fn, ast.parse(names_arg, mode="eval").body)]
+        names_arg = nv[0] if len(nv) == 1 else names_arg
     rep.add(rid, "docstring looked up for (class, C++ method name, argument names) of this very binding",
             len(args) == 4 and args[0] == "self.xml_source" and args[1] == cls_param and callee == [f"{mp}.to_cpp()"]
-            and args[3] == f"{mp}.args.names()", f"extract_docstring({', '.join(args)}); method name <- {callee}",
+            and names_arg == f"{mp}.args.names()", f"extract_docstring({', '.join(args)}); method name <- {callee}",
             f"{ci.mod.rel}:{fn.lineno}")
 
 
@@ -500,19 +550,49 @@ def rule_lookup_provenance(ctx, rep: Report, rid="Q5"):
                 arity = has_tot and has_req
     rep.add(rid, "candidates kept only if the parameter count equals the given count (required or total)", arity,
             "arity filter `len(names) != required and len(names) != total -> skip` not found", f"{ci.mod.rel}:{ff.lineno}")
-    # names at the same index
+    # names at the same index: `for i, n in enumerate(names)` with params[i], or `for p, n in zip(params, names)`;
+    # in filter_member_defs itself or in a helper it calls with the given names
     names_ok = False
-    for l in ast.walk(outer):
-        if isinstance(l, ast.For) and unparse(l.iter).replace(" ", "") == f"enumerate({names_p})" and isinstance(l.target, ast.Tuple):
-            i_var, n_var = [t.id for t in l.target.elts]
+    scopes = [(ff, names_p)]
+    for c in ast.walk(outer):
+        if isinstance(c, ast.Call) and isinstance(c.func, ast.Attribute) and unparse(c.func.value) == "self":
+            h = prog.find_method(ci, c.func.attr)
+            if h is None:
+                continue
+            try:
+                b = bind_call(h[1], c, drop_self=True)
+            except AnalysisError:
+                continue
+            for pn, av in b.items():
+                if isinstance(av, ast.Name) and av.id == names_p:
+                    scopes.append((h[1], pn))
+    for f_, np_ in scopes:
+        la_ = local_assignments(f_)
+        for l in ast.walk(f_):
+            if not (isinstance(l, ast.For) and isinstance(l.target, ast.Tuple) and len(l.target.elts) == 2
+                    and all(isinstance(t, ast.Name) for t in l.target.elts) and isinstance(l.iter, ast.Call)):
+                continue
+            fname = unparse(l.iter.func)
+            a_, b_ = [t.id for t in l.target.elts]
+            if fname == "enumerate" and len(l.iter.args) == 1 and unparse(l.iter.args[0]) == np_:
+                n_var, elem_pat = b_, lambda x, i_=a_: f"[{i_}].find('declname')" in x
+            elif fname == "zip" and len(l.iter.args) == 2 and unparse(l.iter.args[1]) == np_:
+                n_var, elem_pat = b_, lambda x, e_=a_: x.startswith(f"{e_}.find('declname')")
+            elif fname == "zip" and len(l.iter.args) == 2 and unparse(l.iter.args[0]) == np_:
+                n_var, elem_pat = a_, lambda x, e_=b_: x.startswith(f"{e_}.find('declname')")
+            else:
+                continue
             for c in ast.walk(l):
                 if isinstance(c, ast.Compare) and len(c.ops) == 1 and isinstance(c.ops[0], ast.NotEq):
                     l_, r_ = unparse(c.left), unparse(c.comparators[0])
                     other = r_ if l_ == n_var else (l_ if r_ == n_var else None)
                     if other and other.endswith(".text"):
-                        src = value_of(other[:-5])
-                        srcs = [unparse(st.value).replace(" ", "") for st in la.get(other[:-5], []) if isinstance(st, ast.Assign)]
-                        if any(f"[{i_var}].find('declname')" in x for x in srcs):
+                        srcs = [unparse(st.value).replace(" ", "") for st in la_.get(other[:-5], []) if isinstance(st, ast.Assign)]
+                        rejecting = enclosing(c, ast.If) is not None and any(
+                            (isinstance(x, ast.Assign) and isinstance(x.value, ast.Constant) and x.value.value is True) or
+                            (isinstance(x, ast.Return) and isinstance(x.value, ast.Constant) and x.value.value is False)
+                            for x in enclosing(c, ast.If).body)
+                        if any(elem_pat(x) for x in srcs) and rejecting:
                             names_ok = True
     rep.add(rid, "candidates kept only if every given name equals the declared name at the same index", names_ok,
             "name filter `given name != declared name at the same index -> eliminate` not found", f"{ci.mod.rel}:{ff.lineno}")
@@ -525,10 +605,14 @@ def rule_lookup_provenance(ctx, rep: Report, rid="Q5"):
             f"{len(skips)} skip tests before {len(keep)} append(s)", f"{ci.mod.rel}:{ff.lineno}")
     det = prog.method("XMLDocParser", "determine_documenting_index")
     dps = func_params(det)[1:]
-    key = next((st.value for st in walk_no_nested(det) if isinstance(st, ast.Assign) and isinstance(st.value, ast.JoinedStr)), None)
-    knames = [unparse(v.value) for v in key.values if isinstance(v, ast.FormattedValue)] if key is not None else []
+    from .prog import inline_locals
+    kslices = [n_.slice for n_ in walk_no_nested(det) if isinstance(n_, ast.Subscript) and unparse(n_.value) == "self._memory"] + \
+              [c.args[0] for c in walk_no_nested(det) if isinstance(c, ast.Call) and unparse(c.func) in ("self._memory.get", "self._memory.setdefault") and c.args]
+    kexprs = {unparse(inline_locals(det, k)): inline_locals(det, k) for k in kslices}
+    key = next(iter(kexprs.values())) if len(kexprs) == 1 else None
+    knames = [unparse(v.value) for v in key.values if isinstance(v, ast.FormattedValue)] if isinstance(key, ast.JoinedStr) else []
     rep.add(rid, "overload memory keyed by class, method and argument names",
-            len(knames) == 3 and knames[0] == dps[0] and knames[1] == dps[1] and dps[2] in knames[2], f"key fields {knames}",
+            len(knames) == 3 and knames[0] == dps[0] and knames[1] == dps[1] and dps[2] in knames[2], f"key fields {knames} ({len(kexprs)} key spelling(s))",
             f"{ci.mod.rel}:{det.lineno}")
     ex = prog.method("XMLDocParser", "extract_docstring")
     order = []
